@@ -7,7 +7,8 @@
 // run: stream A `(conv ty v)`: real sql.Type.Convert on (value, type) pairs + re-conversion of the result (idempotence);
 //
 //	stream B `(ins strict|ignore ty v)`: INSERT [IGNORE] of a literal into a column of the type on the real engine,
-//	then SELECT and SHOW WARNINGS.
+//	then SELECT and SHOW WARNINGS; `(sins …)`: string literals into integer columns; `(bins mode via ty (b …))` and
+//	`(conv ty (b …))`: binary strings ([]byte) — see bin.go.
 package main
 
 import (
@@ -135,6 +136,9 @@ func extract(a hx.ExtractArgs) error {
 	})
 	fmt.Fprintf(&b, "/-- the conversion-related conditions of `insertIter.Next`, in source order: (condition, first statement of the branch) -/\n")
 	fmt.Fprintf(&b, "def insertPolicy : List (String × String) := [\n  %s]\n", strings.Join(conds, ",\n  "))
+	if err := extractBin(&b, src); err != nil {
+		return err
+	}
 	b.WriteString("\nend Gms.Generated.C27\n")
 	return os.WriteFile(a.Out, []byte(b.String()), 0o644)
 }
@@ -170,6 +174,8 @@ func (v val) payload() string {
 		return hx.List("d", v.v.String(), fmt.Sprint(v.sc))
 	case "s":
 		return hx.List("s", hx.HexS(v.str))
+	case "b":
+		return binPayload([]byte(v.str))
 	}
 	return hx.List("x", hx.HexS(v.desc))
 }
@@ -179,7 +185,7 @@ func pow10(n int) *big.Int { return new(big.Int).Exp(big.NewInt(10), big.NewInt(
 func mkI(r *hx.Rand, x int64) val {
 	// the same value in a random Go signed type that can hold it
 	var g interface{} = x
-	switch r.Intn(5) {
+	switch r.Intn(6) {
 	case 0:
 		if x >= -128 && x <= 127 {
 			g = int8(x)
@@ -194,6 +200,10 @@ func mkI(r *hx.Rand, x int64) val {
 		}
 	case 3:
 		g = int(x)
+	case 4:
+		if (x == 0 || x == 1) && r.Bool() { // the Go kind of a boolean expression's value
+			g = x == 1
+		}
 	}
 	return val{kind: "i", v: big.NewInt(x), gov: g}
 }
@@ -438,7 +448,8 @@ func run(a hx.RunArgs) error {
 	defer out.Close()
 	out.Rule = "conv: real sql.Type.Convert on (Go value, type) pairs — nil, signed/unsigned Go integers of every width (type bounds ±1, powers of two), " +
 		"*apd.Decimal (half-way cases, beyond 64 bits), numeric/malformed/over-long strings — for the 10 integer types, DECIMAL(p,s) column and non-column, YEAR, BIT(1/8/17/64), " +
-		"followed by re-conversion of the returned value; ins: INSERT and INSERT IGNORE of integer/decimal literals into columns of the integer, DECIMAL and YEAR types " +
+		"and binary strings ([]byte: empty, 1..10 bytes, 8 bytes with the top bit set, type bounds, leading zero bytes) for the integer types and BIT, " +
+		"followed by re-conversion of the returned value; bins: INSERT and INSERT IGNORE of binary strings (X'..' / 0x.. literals and values read from a VARBINARY column by INSERT … SELECT) into the integer and BIT columns; ins: INSERT and INSERT IGNORE of integer/decimal literals into columns of the integer, DECIMAL and YEAR types " +
 		"on the real engine, then SELECT and SHOW WARNINGS; sins: INSERT and INSERT IGNORE of string literals (integer text at the type and 64-bit bounds and around 2^53/2^63/2^64, signed, padded, with trailing garbage, empty and sign-only) into the ten integer column types; a case is non-trivial when the value is non-NULL and not exactly storable or not an integer Go value"
 	r := hx.NewRand(a.Seed).Fork() // Fork: hx.NewRand(seed+1) is hx.NewRand(seed) shifted by one draw
 	nA, nB := 4000, 220
@@ -448,6 +459,9 @@ func run(a hx.RunArgs) error {
 	mts := modelledTypes()
 
 	convCase := func(m mty, v val) {
+		if _, isBool := v.gov.(bool); isBool && m.payload == "year" {
+			v.gov = v.v.Int64() // YEAR has no branch for a Go bool
+		}
 		o1, res, again := convObs(m.t, v.gov)
 		o2 := "-"
 		if again {
@@ -455,6 +469,12 @@ func run(a hx.RunArgs) error {
 		}
 		obs := o1 + " | " + o2
 		nontrivial := v.kind != "null" && (v.kind != "i" && v.kind != "u" || !strings.Contains(o1, " in none"))
+		if v.kind == "b" {
+			out.Stat("conv-bin:" + strings.Join(strings.Fields(o1)[1:], "-"))
+			if len(v.str) == 8 && v.str[0] >= 0x80 {
+				out.Stat("conv-bin:8-bytes-top-bit")
+			}
+		}
 		out.Case(hx.List("conv", m.payload, v.payload()), obs, nontrivial)
 		out.Stat("conv:" + strings.Fields(strings.Trim(m.payload, "()"))[0])
 		out.Stat("conv-obs:" + strings.Join(strings.Fields(o1)[1:], "-"))
@@ -475,6 +495,15 @@ func run(a hx.RunArgs) error {
 	for _, m := range mts {
 		for k := 0; k < nA; k++ {
 			convCase(m, randNumVal(r, m.withStrings))
+		}
+		// binary strings ([]byte): integer types and BIT
+		if binModelled(m) {
+			for _, bs := range binCorpus {
+				convCase(m, mkB(bs))
+			}
+			for k := 0; k < nA/8; k++ {
+				convCase(m, mkB(randBin(r)))
+			}
 		}
 		// values centred on the type's own bounds
 		if strings.HasPrefix(m.payload, "(int ") {
@@ -691,7 +720,8 @@ func run(a hx.RunArgs) error {
 			}
 		}
 	}
-	return nil
+	// SQL level, binary strings into integer and BIT columns
+	return binInsertStream(a, out, r, e, ctx, mts, tblOf)
 }
 
 func bi(s string) *big.Int {
